@@ -15,7 +15,7 @@ C07_CLAUSES = {"FeedsCurrentHerd", "Requirement", "ThreadsSupply", "WithinSupply
                "StarvingNonNeg", "InvSupplyNonNeg", "InvFedWithinHerd", "SupplyNonNeg"}
 C06_CLAUSES = {"FlowsNonNeg", "OnlyDairyExports", "TransferConserved", "HoursWithinBudget", "SlaughterWithinPop",
                "NotBelowTarget", "Ledger", "EverySpeciesClosed", "InvHeadCountsNonNeg", "InvHoursNonNeg",
-               "OncePerMonth", "AllBirthsFirst", "AllSlaughterFirst"}
+               "OncePerMonth", "AllBirthsFirst", "AllSlaughterFirst", "EverySpeciesSimulated"}
 
 # (MLI and GEO: small meat herds next to large dairy herds - the hand-over dominates their ledger; both carry a recorded finding)
 QUICK_CC = ["ARG", "USA", "IND", "CHN", "NZL", "DJI", "LSO", "EST", "SLV", "ECU", "JPN", "ZAF", "WOR", "MNG", "SAU", "MLI", "GEO", "SWT", "LUX"]
